@@ -115,7 +115,9 @@ DistAlgebra.replay = lambda self, label, clause, probes, model: {"kind": "pure",
 
 
 from .c12 import MinimalDelaySubstitution
-UNITS = [DistAlgebra(), ApplyDelayZoh(), MinimalDelaySubstitution()]
+from .c07 import ApplyWindowBody
+from .compiled import UpdateInputsDelay
+UNITS = [DistAlgebra(), ApplyDelayZoh(), MinimalDelaySubstitution(), ApplyWindowBody(), UpdateInputsDelay()]
 EXTRA = dict(assumptions=["the coverage lemma 'every generated / recorded graph satisfies the extended-window precondition' needs sender sends >= 1/rate apart; it is NOT proved here (DESIGN 6/C10: refuted for jittery computation delays - recorded as an observation, see DESIGN 7)",
                           "make_update_inputs keeps the previous delay distribution (proved under C08's _update_inputs unit)"])
 
@@ -125,7 +127,8 @@ def check(tier, seed):
     md = bounded.model_differential(150 if tier == "quick" else 1500, seed)
     extra = dict(EXTRA)
     extra["explanation"] = ("library model differential (spot check of the trusted base, not a proof): the assumed contracts of clip / where / roll / take / dynamic_slice / argwhere / searchsorted / flip / "
-                            ".at[].set / floor-division / round(.,6) / interp / max / min / int / ceil evaluated on random concrete inputs against the real numpy / jax functions: " + str({k: v for k, v in md.items() if k != "first_disagreements"}))
+                            ".at[].set / floor-division / round(.,6) / interp / max / min / int / ceil / pytree flattening order / tree_map with None leaves evaluated on random concrete inputs against the real numpy / jax functions, "
+                            "and the axioms assumed for argmin (NaN propagation) / argsort / nanmax checked on the real functions' outputs: " + str({k: v for k, v in md.items() if k != "first_disagreements"}))
     n = 60 if tier == "quick" else 600
     res = bounded.run_native("c10_zoh.py", ["--n", str(n), "--seed", str(seed)])
     lines, ev, err = bounded.report("C10", "trainable delay d vs a graph recorded with static delay d (function level)", res, "c10_zoh.py")
